@@ -1010,7 +1010,223 @@ example : yamlNets [⟨true, 0x01020300, some 8⟩, ⟨false, 0xfe80000000000000
     yamlNets [⟨true, 0x01020300, some 33⟩] = none := by decide
 
 
+/-! ## The device lookup and automatic devices (fifth deepening)
+
+"Leaves no trace" also covers what happens *before* the decision: the device lookup can create an
+automatic device through the backend.  The finder is an arbitrary state machine here. -/
+
+/-- The global clauses are the first two of the decision list: a request is globally rejected iff the
+access decision names a global clause, whatever the device result. -/
+theorem global_reason_spec (g : Global) (r : Req) :
+    (globalReason g r = .globalIP ↔ accessReason g r = .globalIP) ∧
+    (globalReason g r = .globalHost ↔ accessReason g r = .globalHost) ∧
+    (globalReason g r ≠ .pass ↔ (matchNets g.nets r.addr = true ∨
+        engBlocked (g.eng (normQueryDomain r.qname) r.qtype) = true)) := by
+  unfold globalReason accessReason Global.isBlockedIP Global.isBlockedHost
+  by_cases h1 : matchNets g.nets r.addr = true
+  · simp [h1]
+  · by_cases h2 : engBlocked (g.eng (normQueryDomain r.qname) r.qtype) = true
+    · simp [h1, h2]
+    · simp [h1, h2]
+      cases hd : r.dev.profAcc with
+      | none => simp
+      | some p => simp; split <;> simp
+
+/-- The global decision does not look at the device result. -/
+theorem global_reason_dev_irrelevant (g : Global) (r : Req) (d : DevRes) :
+    globalReason g { r with dev := d } = globalReason g r := rfl
+
+/-- **wrapF_outcome.** With the lookup inside, the handler's outcome is exactly what `wrap` — and hence every
+theorem above — says for the device result the finder returns for this connection. -/
+theorem wrapF_outcome {φ κ : Type} (g : Global) (find : φ → κ → φ × DevRes) (s : φ) (k : κ) (r : Req) :
+    (wrapF g find s k r).2 = wrap g { r with dev := (find s k).2 } := by
+  unfold wrapF wrap
+  by_cases hp : r.port == 0
+  · simp [hp]
+  · simp only [hp]
+    have hg := global_reason_spec g { r with dev := (find s k).2 }
+    rw [global_reason_dev_irrelevant] at hg
+    cases h : globalReason g r with
+    | globalIP => simp [hg.1.mp h]
+    | globalHost => simp [hg.2.1.mp h]
+    | profile => simp
+    | pass => simp
+
+/-- **global_blocked_no_lookup.** A request from a globally blocked subnet or for a globally blocked name
+(and likewise one with source port 0) leaves the device finder — profile database and backend — exactly
+as it was, for every finder, every state and every connection data, and its outcome is silence: no
+automatic device, no backend call, nothing written, no error. -/
+theorem global_blocked_no_lookup {φ κ : Type} (g : Global) (find : φ → κ → φ × DevRes) (s : φ) (k : κ) (r : Req)
+    (h : r.port = 0 ∨ matchNets g.nets r.addr = true ∨ engBlocked (g.eng (normQueryDomain r.qname) r.qtype) = true) :
+    (wrapF g find s k r).1 = s ∧ (wrapF g find s k r).2.effects = [] ∧ (wrapF g find s k r).2.err = false ∧
+      (wrapF g find s k r).2.info = none := by
+  unfold wrapF
+  by_cases hp : r.port == 0
+  · simp [hp]
+  · have hp' : r.port ≠ 0 := by simpa using hp
+    have hb : globalReason g r ≠ .pass := (global_reason_spec g r).2.2.mpr (by
+      rcases h with h | h | h
+      · exact absurd h hp'
+      · exact Or.inl h
+      · exact Or.inr h)
+    simp only [hp]
+    cases hr : globalReason g r with
+    | globalIP => simp
+    | globalHost => simp
+    | profile =>
+      exfalso
+      unfold globalReason at hr
+      split at hr
+      · cases hr
+      · split at hr <;> cases hr
+    | pass => exact absurd hr hb
+
+/-- **lookup_iff.** Conversely the lookup runs for every other request: usable port, no global clause. -/
+theorem lookup_runs {φ κ : Type} (g : Global) (find : φ → κ → φ × DevRes) (s : φ) (k : κ) (r : Req)
+    (hp : r.port ≠ 0) (h1 : matchNets g.nets r.addr = false)
+    (h2 : engBlocked (g.eng (normQueryDomain r.qname) r.qtype) = false) :
+    (wrapF g find s k r).1 = (find s k).1 := by
+  have hg : globalReason g r = .pass := by
+    unfold globalReason Global.isBlockedIP Global.isBlockedHost
+    simp [h1, h2]
+  have hp' : (r.port == 0) = false := by simpa using hp
+  simp [wrapF, hp', hg]
+
+/-- The global part of the decision as a Boolean, for histories. -/
+def globallyDropped (g : Global) (r : Req) : Bool :=
+  r.port == 0 || matchNets g.nets r.addr || engBlocked (g.eng (normQueryDomain r.qname) r.qtype)
+
+/-- **global_blocked_invisible_to_finder.** Over any history and any finder, deleting the globally rejected
+requests changes neither the final state of the finder (devices created, backend calls) nor the outcome of
+any other request. -/
+theorem global_blocked_invisible_to_finder {φ κ : Type} (g : Global) (find : φ → κ → φ × DevRes) (s : φ)
+    (l : List (κ × Req)) :
+    (runF g find s (l.filter (fun e => !globallyDropped g e.2))).1 = (runF g find s l).1 ∧
+    (runF g find s (l.filter (fun e => !globallyDropped g e.2))).2 =
+      ((l.zip (runF g find s l).2).filter (fun e => !globallyDropped g e.1.2)).map (·.2) := by
+  induction l generalizing s with
+  | nil => simp [runF]
+  | cons e l ih =>
+    obtain ⟨k, r⟩ := e
+    by_cases hb : globallyDropped g r = true
+    · have h : r.port = 0 ∨ matchNets g.nets r.addr = true ∨
+          engBlocked (g.eng (normQueryDomain r.qname) r.qtype) = true := by
+        simp [globallyDropped] at hb
+        rcases hb with (hb | hb) | hb
+        · exact Or.inl hb
+        · exact Or.inr (Or.inl hb)
+        · exact Or.inr (Or.inr hb)
+      have hs := (global_blocked_no_lookup g find s k r h).1
+      simp only [List.filter_cons, hb, Bool.not_true, runF, hs, List.zip_cons_cons]
+      simpa using ih s
+    · have hb' : globallyDropped g r = false := by simpa using hb
+      simp only [List.filter_cons, hb', Bool.not_false, if_true, runF, List.zip_cons_cons, List.map_cons]
+      obtain ⟨i1, i2⟩ := ih (wrapF g find s k r).1
+      exact ⟨i1, by simp [i2]⟩
+
+/-- **auto_create_iff.** The modelled finder (`deviceByExtID` over the profile database) calls the backend exactly
+when the connection names an existing profile with automatic devices and a human-readable ID no device of that
+profile has; otherwise the database and the backend stay as they were. -/
+theorem auto_create_iff (db : AutoDB) (k : ExtKey) :
+    ((db.find k).1.creates = db.creates + 1 ↔
+      ∃ i e, k.prof = some i ∧ db.profs.find? (fun e => e.1 == i) = some e ∧ e.2.1 = true ∧
+        db.devs.contains (i, k.hid) = false) ∧
+    ((db.find k).1.creates ≠ db.creates + 1 → (db.find k).1.creates = db.creates ∧ (db.find k).1.devs = db.devs) := by
+  unfold AutoDB.find
+  cases hk : k.prof with
+  | none => simp
+  | some i =>
+    cases hf : db.profs.find? (fun e => e.1 == i) with
+    | none => simp [hf]
+    | some e =>
+      obtain ⟨j, auto, acc⟩ := e
+      by_cases hd : (i, k.hid) ∈ db.devs
+      · simp [hf, hd]
+      · cases auto <;> cases hb : k.backendFails <;> simp [hf, hd]
+
+/-- The witness: profile 0 allows automatic devices and blocks `10.1.2.0/24`; the global settings block `10.9.0.0/16`. -/
+def autoWitnessDB : AutoDB :=
+  { profs := [(0, true, some { allowedNets := [], blockedNets := [⟨true, 0x0A010200, 24⟩], allowedASN := [], blockedASN := [],
+                               eng := fun _ _ => ⟨false, none⟩ })] }
+def autoWitnessGlobal : Global := { nets := [⟨true, 0x0A090000, 16⟩], eng := fun _ _ => ⟨false, none⟩ }
+def autoWitnessKey : ExtKey := { prof := some 0, hid := "phone" }
+
+/-- **pre_fix_auto_device_counterexample.** Before the repair the lookup came first: a DoT client in the globally
+blocked `10.9.0.0/16` naming `otr-prof0-phone` was dropped silently — after one `CreateAutoDevice` call to the backend
+and with a new device in the profile database.  The repaired order leaves both untouched. -/
+theorem pre_fix_auto_device_counterexample :
+    let r : Req := { addr := ⟨true, 0x0A090001⟩, port := 4000, qname := "ok.test.", qtype := 1, asn := none, ecsBad := false, dev := .none }
+    blocked autoWitnessGlobal r = true ∧
+    (wrapFPreFix autoWitnessGlobal AutoDB.find autoWitnessDB autoWitnessKey r).1.creates = 1 ∧
+    (wrapFPreFix autoWitnessGlobal AutoDB.find autoWitnessDB autoWitnessKey r).1.devs = [(0, "phone")] ∧
+    (wrapFPreFix autoWitnessGlobal AutoDB.find autoWitnessDB autoWitnessKey r).2.effects = [] ∧
+    (wrapF autoWitnessGlobal AutoDB.find autoWitnessDB autoWitnessKey r).1.creates = 0 ∧
+    (wrapF autoWitnessGlobal AutoDB.find autoWitnessDB autoWitnessKey r).1.devs = [] := by decide
+
+/-- **profile_blocked_lookup_happens.** What the repair cannot reach: a request that only its profile rejects has
+necessarily been through the lookup — the finder's state is the state after `find`, for every finder. -/
+theorem profile_blocked_lookup_happens {φ κ : Type} (g : Global) (find : φ → κ → φ × DevRes) (s : φ) (k : κ) (r : Req)
+    (h : (wrapF g find s k r).2.why = "profile") :
+    (wrapF g find s k r).1 = (find s k).1 ∧ accessReason g { r with dev := (find s k).2 } = .profile := by
+  unfold wrapF at h ⊢
+  by_cases hp : r.port == 0
+  · simp [hp] at h
+  · simp only [hp] at h ⊢
+    cases hr : globalReason g r with
+    | globalIP => simp [hr] at h
+    | globalHost => simp [hr] at h
+    | profile =>
+      refine ⟨by simp, ?_⟩
+      simp only [hr] at h
+      have hp' : ((r.port == 0) = false) := by simpa using hp
+      unfold wrap at h
+      simp only [hp'] at h
+      cases ha : accessReason g { r with dev := (find s k).2 } <;> simp [ha] at h ⊢
+      all_goals (revert h; cases (find s k).2 <;> simp <;> split <;> simp)
+    | pass =>
+      refine ⟨by simp, ?_⟩
+      simp only [hr] at h
+      have hp' : ((r.port == 0) = false) := by simpa using hp
+      unfold wrap at h
+      simp only [hp'] at h
+      cases ha : accessReason g { r with dev := (find s k).2 } <;> simp [ha] at h ⊢
+      all_goals (revert h; cases (find s k).2 <;> simp <;> split <;> simp)
+
+/-- **profile_blocked_creates_device_counterexample** (known finding).  A DoT client in `10.1.2.0/24`, which profile 0
+blocks, naming the new device `otr-prof0-phone`: the repaired handler drops the request silently — and the device has
+been created (one backend call, one new entry in the profile database). -/
+theorem profile_blocked_creates_device_counterexample :
+    let r : Req := { addr := ⟨true, 0x0A010209⟩, port := 4000, qname := "ok.test.", qtype := 1, asn := none, ecsBad := false, dev := .none }
+    (wrapF autoWitnessGlobal AutoDB.find autoWitnessDB autoWitnessKey r).2.why = "profile" ∧
+    (wrapF autoWitnessGlobal AutoDB.find autoWitnessDB autoWitnessKey r).2.effects = [] ∧
+    (wrapF autoWitnessGlobal AutoDB.find autoWitnessDB autoWitnessKey r).1.creates = 1 ∧
+    (wrapF autoWitnessGlobal AutoDB.find autoWitnessDB autoWitnessKey r).1.devs = [(0, "phone")] := by decide
+
+/-- Non-vacuity: an unblocked client creates its device once and is served; the same ID again creates nothing. -/
+example :
+    let r : Req := { addr := ⟨true, 0x0B000001⟩, port := 4000, qname := "ok.test.", qtype := 1, asn := none, ecsBad := false, dev := .none }
+    let st := wrapF autoWitnessGlobal AutoDB.find autoWitnessDB autoWitnessKey r
+    st.1.creates = 1 ∧ st.2.effects = [.next] ∧
+      (wrapF autoWitnessGlobal AutoDB.find st.1 autoWitnessKey r).1.creates = 1 := by decide
+
+/-- Non-vacuity of the history theorem: the blocked request in the middle changes nothing. -/
+example :
+    let ok : Req := { addr := ⟨true, 0x0B000001⟩, port := 4000, qname := "ok.test.", qtype := 1, asn := none, ecsBad := false, dev := .none }
+    let bad : Req := { ok with addr := ⟨true, 0x0A090001⟩ }
+    (runF autoWitnessGlobal AutoDB.find autoWitnessDB
+        [(autoWitnessKey, ok), ({ autoWitnessKey with hid := "tv" }, bad), (autoWitnessKey, ok)]).1.devs = [(0, "phone")] := by decide
+
 #print axioms blocked_iff
+#print axioms global_reason_spec
+#print axioms global_reason_dev_irrelevant
+#print axioms wrapF_outcome
+#print axioms global_blocked_no_lookup
+#print axioms lookup_runs
+#print axioms global_blocked_invisible_to_finder
+#print axioms auto_create_iff
+#print axioms pre_fix_auto_device_counterexample
+#print axioms profile_blocked_lookup_happens
+#print axioms profile_blocked_creates_device_counterexample
 #print axioms prefix_contains_iff
 #print axioms prefix_contains_bits
 #print axioms blocked_iff_rejected
@@ -1065,6 +1281,7 @@ end Agd.Access
 #print axioms Agd.Tie.TrC10.access_blocked_iff
 #print axioms Agd.Tie.TrC10.access_order
 #print axioms Agd.Tie.TrC10.blocked_reaches_nothing
+#print axioms Agd.Tie.TrC10.global_blocked_does_nothing
 #print axioms Agd.Tie.TrC10.access_checked_first
 #print axioms Agd.Tie.TrC10.unblocked_is_processed
 #print axioms Agd.Tie.TrC10.backend_access_total
